@@ -1,5 +1,6 @@
 """C15 - saving, reloading and declarative descriptions preserve the circuit."""
 from __future__ import annotations
+import copy
 import math, os, tempfile
 from hypothesis import strategies as st
 from vlib.core import Test, R
@@ -137,6 +138,13 @@ def to_lib_desc(desc):
     return out
 
 
+def _first_difference(a, b):
+    for k, (x, y) in enumerate(zip(a.get('elements', []), b.get('elements', []))):
+        if x != y:
+            return f'element {k}: {x!r} -> {y!r}'
+    return 'outside the element list'
+
+
 def check_declarative(case, r: R):
     from CircuitCalculator.SimpleSimulation.schematic import create_schematic
     from CircuitCalculator.SimpleCircuit.DiagramTranslator import circuit_translator
@@ -153,12 +161,24 @@ def check_declarative(case, r: R):
         if e.get('length', 1) != 1:
             r.cls('length!=1')
     circuit = None
+    lib_desc = to_lib_desc(desc)
+    before = copy.deepcopy(lib_desc)
     with r.lib('create_schematic'):
-        sch = create_schematic(to_lib_desc(desc))
+        sch = create_schematic(lib_desc)
         circuit = circuit_translator(sch)
     if circuit is None:
         return
     c13.structural(prog, circuit, r)
+    if r.failures:
+        return
+    # the element list is the user's document: it still describes the same circuit after it has been drawn once
+    if lib_desc != before:
+        r.fail('description-consumed', f'create_schematic changed the element list it was given: {_first_difference(before, lib_desc)}')
+    again = None
+    with r.lib('create_schematic[same list again]'):
+        again = circuit_translator(create_schematic(lib_desc))
+    if again is not None:
+        c13.structural(prog, again, r, tag='[second call on the same list]')
 
 
 @st.composite
